@@ -3,6 +3,7 @@ import QuantemModel.Lemmas.ConfigTwin
 import QuantemModel.Lemmas.ConfigUpdate
 import QuantemModel.Lemmas.ConfigHistory
 import QuantemModel.Lemmas.ConfigWellKeyed
+import QuantemModel.Lemmas.ConfigDevice
 /-!
 C19 — the configuration store (Model/Config.lean) behaves as a last-writer-wins nested
 map.  Only property theorems and non-vacuity examples live here.
@@ -230,37 +231,70 @@ theorem set_error_keeps_prefix (env : Env) (pre : List (Key × Tree)) (kv : Key 
       exact ih _ _ _ _ _ h he
     · simp at h
 
+/-- **only available devices are accepted — in every device environment.**  Whatever the
+request (string, index, `None`, `torch.device` object, anything else) and whatever CUDA / MPS
+availability, device count and current device: if `validate_device` returns, it returns
+`("cpu", -1)`, or `("mps", 0)` with MPS available, or `("cuda:n", n)` with CUDA available and
+`n` below the device count.  Every other request raises. -/
+theorem device_accepted_available (env : Env) (v : Tree) (a : Atom) (i : Int)
+    (h : validateDeviceFull env v = .ok (a, i)) : Accepted env a i := by
+  unfold validateDeviceFull at h
+  simp only [bind, Except.bind] at h
+  repeat' split at h
+  all_goals first
+    | exact finishCuda_accepted _ _ _ _ h
+    | exact finishMps_accepted _ _ _ h
+    | exact cpu_accepted _ _ _ h
+    | (simp at h)
+
+/-- the converse ("exactly"): every available device is reached by some request -/
+theorem device_accepted_reachable (env : Env) (a : Atom) (i : Int) (h : Accepted env a i) :
+    ∃ v, validateDeviceFull env v = .ok (a, i) := by
+  cases h with
+  | cpu => exact ⟨.leaf (.dev "cpu" .none), by simp [validateDeviceFull]⟩
+  | mps hm => exact ⟨.leaf (.dev "mps" .none), by simp [validateDeviceFull, finishMps, hm]⟩
+  | cuda n hc hn =>
+    refine ⟨.leaf (.int n), ?_⟩
+    have : ¬ ((n : Int) < 0) := by omega
+    have hge : ¬ (n ≥ env.numDevices) := by omega
+    simp [validateDeviceFull, finishCuda, hc, this, hge]
+
+/-- **malformed device strings are rejected**: a string request is only ever accepted when it
+is torch's own `cuda` / `cuda:<decimal index>` spelling, or — ignoring case — exactly `gpu`,
+`mps` or `cpu`; a string that merely contains one of these words raises -/
+theorem device_string_forms (env : Env) (s : String) (r : Atom × Int)
+    (h : validateDeviceFull env (.leaf (.str s)) = .ok r) :
+    (∃ idx, parseCuda s = .ok idx) ∨ lowerStr s = "gpu" ∨ lowerStr s = "mps" ∨ lowerStr s = "cpu" := by
+  unfold validateDeviceFull at h
+  simp only [bind, Except.bind] at h
+  split at h
+  · left
+    split at h
+    · simp at h
+    · rename_i idx hidx; exact ⟨idx, hidx⟩
+  · split at h
+    · right; left; assumption
+    · split at h
+      · right; right; left; assumption
+      · split at h
+        · right; right; right; assumption
+        · simp at h
+
 /-- on a machine without CUDA and MPS the only device value ever stored is "cpu" -/
 theorem device_accepted_cpu_only (n c : Nat) (v : Tree) (a : Atom)
     (h : validateDevice { cuda := false, mps := false, numDevices := n, currentDevice := c } v = .ok a) :
     a = .str "cpu" := by
   unfold validateDevice at h
-  split at h
-  · simp at h; exact h.symm
-  · simp only [finishCuda, finishMps, bind, Except.bind] at h
-    split at h
-    · split at h <;> simp at h
-    · split at h
-      · simp at h
-      · split at h
-        · simp at h
-        · split at h
-          · simp at h; exact h.symm
-          · simp at h
-  · split at h
-    · simp at h
-    · simp at h
-  · simp at h
-  · -- a torch.device object
-    simp only [finishMps] at h
-    split at h
-    · simp at h
-    · split at h
-      · simp at h
-      · split at h
-        · simp at h; exact h.symm
-        · simp at h
-  · simp at h
+  cases hf : validateDeviceFull { cuda := false, mps := false, numDevices := n, currentDevice := c } v with
+  | error e => simp [hf, Except.map] at h
+  | ok r =>
+    obtain ⟨a', i⟩ := r
+    simp [hf, Except.map] at h
+    subst h
+    cases device_accepted_available _ _ _ _ hf with
+    | cpu => rfl
+    | mps hm => simp at hm
+    | cuda n hc hn => simp at hc
 
 /-- **refresh restores exactly the accumulated defaults** (with a hermetic, empty yaml
 collection): the new configuration is the merge of the defaults list, nothing of the
